@@ -73,9 +73,11 @@ def perturb_like(rng, g):
     return h
 
 def mk_phi(rng, size, kind=None):
-    kind = kind or rng.choice(['random', 'random', 'spike', 'smooth', 'edges'])
+    kind = kind or rng.choice(['random', 'random', 'spike', 'smooth', 'edges', 'signed'])
     if kind == 'random':
         return [lib.dyadic(rng, 0, 8, 8) for _ in range(size)]
+    if kind == 'signed':     # sign-changing density with exact zeros (from_phi is linear; densities go negative in real use)
+        return [rng.choice([0.0, lib.dyadic(rng, -8, 8, 8), lib.dyadic(rng, -8, 8, 8)]) for _ in range(size)]
     if kind == 'spike':
         v = [0.0] * size
         for _ in range(max(1, size // 5)):
